@@ -117,11 +117,29 @@ def rule_abc(ctx: Context, R: Reporter, f: FuncInfo):
             R.check("C20.b", "the threshold is a percentile of the same weights", thr_ok, f, d.stmt,
                     msg=f"{f.short}: threshold of `{unparse(v)}` is not np.percentile({weights_p}, p)", key="threshold-percentile")
     # C20.c: loop exits
-    loops = [n for n in cfg.stmt_nodes() if n.kind == "test" and isinstance(n.stmt, ast.While)]
+    loops = [n for n in cfg.stmt_nodes() if (n.kind == "test" and isinstance(n.stmt, ast.While)) or (n.kind == "for" and not n.loops)]
     R.floor("C20.c", "search loops", len(loops), 1)
     for lp in loops:
         body = cfg.loop_body(lp.id)
         exits = [(a, b, lab) for a in body for (b, lab) in cfg.succ[a] if b not in body and b != cfg.raise_exit.id]
+        if lp.kind == "for":
+            # a `for` over the grid can also end by exhaustion; that exit is harmless only when it cannot happen
+            # (an endless counter) or when the last candidate is p = 0, which keeps everything and always passes
+            it = ExprResolver(f.node).resolve(lp.stmt.iter, lp)
+            endless = isinstance(it, ast.Call) and (ctx.res.external_name(f, it) or dotted(it.func)).split(".")[-1] in ("count", "repeat", "cycle")
+            rev = None
+            if isinstance(it, ast.Subscript) and isinstance(it.slice, ast.Slice) and it.slice.lower is None and it.slice.upper is None and const_value(it.slice.step) == -1:
+                rev = it.value
+            elif isinstance(it, ast.Call) and dotted(it.func) == "reversed" and it.args:
+                rev = it.args[0]
+            ends_at_zero = isinstance(rev, ast.Call) and (ctx.res.external_name(f, rev) or "") == "numpy.linspace" and rev.args and const_value(rev.args[0]) == 0
+            if endless or ends_at_zero:
+                exits = [(a, b, lab) for (a, b, lab) in exits if not (a == lp.id and lab and lab[0] == "iter" and lab[1] is False)]
+            top_down = endless or ends_at_zero
+            if endless and isinstance(it, ast.Call) and len(it.args) >= 2:
+                top_down = const_value(it.args[1]) == -1 or (isinstance(it.args[1], ast.UnaryOp) and isinstance(it.args[1].op, ast.USub) and const_value(it.args[1].operand) == 1)
+            R.check("C20.c", "the search runs from the top percentile downwards", top_down or not (endless or ends_at_zero), f, lp.stmt,
+                    msg=f"{f.short}: the grid `{unparse(it)[:50]}` is not traversed from the top", key="for-top-down")
         n_ok = 0
         for (a, b, lab) in exits:
             src = cfg.nodes[a]
@@ -392,6 +410,18 @@ def rule_f(ctx: Context, R: Reporter, vf: FuncInfo):
     R.check("C20.f", "the volume metric normalises its weights before use", normed, vf, vf.node, msg=f"{vf.short}: `{wp}` is never normalised", key="vv-normalises")
 
 
+def rule_cov(ctx: Context, R: Reporter, funcs: List[FuncInfo]):
+    """Library covariance estimators with reliability weights: np.cov(aweights=w) divides by 1 - sum(w^2)
+    (for normalised w) unless bias=True / ddof=0 -- zero when one sample carries all the weight."""
+    for f in funcs:
+        for c in calls_in(f.node):
+            if (ctx.res.external_name(f, c) or "") == "numpy.cov" and any(k.arg == "aweights" for k in c.keywords):
+                okb = any(k.arg == "bias" and const_value(k.value) is True for k in c.keywords) or any(k.arg == "ddof" and const_value(k.value) == 0 for k in c.keywords)
+                R.check("C20.f", "weighted covariance uses the plain weighted second moment", okb, f, c,
+                        msg=f"{f.short}: `{unparse(c)[:70]}` applies np.cov's reliability-weight correction 1/(1 - sum(w^2)): it is singular when one sample carries (numerically) all of "
+                            f"the weight, so the metric becomes nan or the call raises instead of returning a non-negative value", key=f"cov-aweights:{f.short}")
+
+
 def rule_g(ctx: Context, R: Reporter, vf: FuncInfo):
     """C20.g  scale typing of the volume metric under x -> s * x (a necessary part
     of invariance under invertible linear maps): the result has degree 0 and no
@@ -451,6 +481,7 @@ def run(ctx: Context, R: Reporter):
     ef = [f for f in ess_fns(ctx) if "log" not in f.params[0]]
     R.guard(rule_d, ctx, R, [tf, vf] + ef)
     R.guard(rule_e, ctx, R)
+    R.guard(rule_cov, ctx, R, [tf, vf] + ef)
     R.guard(rule_f, ctx, R, vf)
     R.guard(rule_g, ctx, R, vf)
 
